@@ -1457,7 +1457,7 @@ theorem star_spelled (t : Val) (rl : Bool) {toksP : List Str} {p : Pos} {lc : Cl
     rw [find_name_on_list g' t false rl _ found' f f .none [] lc rs hq hf.keyTok.split hf.ne hf.notUp]
     exact star_records t rl _ found' _ f lc rs hq hrs hf.keyTok split_star g' false (by omega)
 
-theorem mergedToks_append_key (p : Pos) (f : Str) : mergedToks (p ++ [.key f]) = mergedToks p ++ [f] := by
+theorem mergedToks_snoc_key (p : Pos) (f : Str) : mergedToks (p ++ [.key f]) = mergedToks p ++ [f] := by
   induction p using mergedToks.induct with
   | case1 => simp [mergedToks]
   | case2 k n rest ih => simp [mergedToks, ih]
@@ -1499,7 +1499,7 @@ theorem star_implicit_path (cls : Cls) (kvs : List (Str × Val)) (p : Pos) (f : 
   have hlen := mergedToks_length_le p
   have hxp : xp = slash ++ renderPos (p ++ [.key f]) := by simp [xp, renderPos_append_key, List.append_assoc]
   have htok : tokenize xp = mergedToks p ++ [f] := by
-    rw [hxp, ← mergedToks_append_key]
+    rw [hxp, ← mergedToks_snoc_key]
     exact tokenize_render _ (plainPos_append_key p f hp hf)
   apply select_api cls kvs xp _ vals d fuel
   · simp [xp, slash, startsWith]
